@@ -122,7 +122,8 @@ def cmd_check(prop, tier):
                known_findings_matched=matched, known_findings_reobserved=known_seen,
                violation_groups=[dict(site=v["site"], kind=v["kind"], where=v["where"], count=v["count"])
                                  for v in new_viol][:50],
-               harness_errors=agg["errors"][:20])
+               harness_errors=agg["errors"][:20],
+               task_cpu_s={k: (round(v, 1) if v else v) for k, v in agg["task_cpu"].items()})
     if level == "model_checking":
         cov.update(states=int(agg["states"]), transitions=int(agg["transitions"]),
                    traces_validated_against_impl=int(agg["evals"]))
